@@ -34,8 +34,9 @@ def specs(T):
     T.body_contains(F, 'load_adjust_coverages',
                     "(cnarr['log2'] > params.NULL_LOG2_COVERAGE - params.MIN_REF_COVERAGE).sum() <= len(cnarr) // 2")
     T.body_contains(F, 'load_adjust_coverages', 'edge_bias = get_edge_bias(cnarr, params.INSERT_SIZE)')
-    # does the code bring the sample into genomic order before matching?  (it does not at the time
-    # of writing: see the finding 'fix-sample-row-order-positional'; the model follows this flag)
+    # does the code bring the sample into genomic order before matching?  (it does since /repo 9f02d63,
+    # the repair of the positional pairing of unsorted samples; the model follows this flag and
+    # Proofs/FixBins.presort_eq stops compiling if the sort disappears)
     presorts = '.sort()' in T.func_source(F, 'load_adjust_coverages')
 
     # ---- center_by_window: the seed of the shuffle ------------------------------------------------
